@@ -108,6 +108,37 @@ fn run_private(u: &mut Universe, b: &Batch, idx: u64, st: &mut Stats) -> bool {
         let v = mk_violation(&case, &out, "C09", clause, "reopen", detail);
         st.violation(&v);
     }
+    // the same scenario with one fault of the catalogue at every system call of the reopen: it may
+    // fail, but what it returns still comes from the calling thread's own descriptor table
+    if plant && b.phase != "replay" {
+        let sites: Vec<(usize, i64)> = out.trace.iter().filter(|e| e.lib && e.nr != crate::seam::HYPERCALL_NR && e.nr != libc::SYS_futex).map(|e| (e.step, e.nr)).collect();
+        for (step, nr) in sites {
+            // (only plain errnos: the other fault kinds are executed by the supervisor on the caller's
+            // behalf, which presupposes the shared descriptor table this phase does without)
+            for f in crate::sup::fault_catalogue(nr).into_iter().filter(|f| matches!(f, crate::sup::Fault::Errno(_))) {
+                let mut fc = case.clone();
+                fc.plan.script = vec![crate::sup::Dec { step, fault: Some(f), ..Default::default() }];
+                let fout = run_case(u, &fc, &mut crate::sup::NoHooks, false);
+                if fout.harness_error.is_some() {
+                    continue;
+                }
+                st.evaluations += 1;
+                st.merge_runout(&fout);
+                st.count("private.fault_placements", 1);
+                if let Some(r) = fout.records.first() {
+                    let bad = match &r.outcome {
+                        Outcome::Harness(1) => Some(("different-inode:private-descriptor-table", format!("with one injected fault at step {step} a caller thread with a private descriptor table reopened its descriptor for {path:?} ({flags:#o}) and got a different inode"))),
+                        Outcome::Panic(m) => Some(("panic", m.clone())),
+                        _ => None,
+                    };
+                    if let Some((clause, detail)) = bad {
+                        let v = mk_violation(&fc, &fout, "C09", clause, "reopen", detail);
+                        st.violation(&v);
+                    }
+                }
+            }
+        }
+    }
     true
 }
 
@@ -477,7 +508,7 @@ pub fn finalise(tier: &str, seed: u64, res: coord::CheckResult) -> i32 {
         tier,
         seed,
         "exploration",
-        "one evaluation = one history: resolve a handle (file, directory, fifo, symlink handle, character device) -> attacker operations on the handle's path (rename, replace by a same-named file/dir/symlink, unlink, rename an ancestor; 0-3 of them) -> renumber the handle's descriptor (0, 1, 2, 3, 5, 63, 150, 199 or unchanged) -> optionally mount tmpfs / a foreign directory over /proc, /proc/self, /proc/self/fd, /proc/thread-self -> reopen with a flag set from the power set of {access modes, O_APPEND, O_DIRECTORY, O_NOFOLLOW, O_CLOEXEC, O_TRUNC, O_NOATIME, O_CREAT, O_EXCL, O_TMPFILE, O_NOCTTY}; compared with the baseline (same handle type and flags, nothing in between); universes: K and E with private procfs, and with fsopen refused / the whole new mount API refused (non-private handles); private-table phase: the whole scenario runs in a caller thread with a private descriptor table (unshare(CLONE_FILES)) that opens the target itself, has the supervisor plant a decoy at the same descriptor number in the thread-group leader's table (or leave that number empty there), reopens through libpathrs (4 targets x flag sets x Rust/C, 60 cases per universe kind) and compares inodes itself: the answer must come from the calling thread's table; non-trivial = a history with at least one attacker / renumbering / mount step; distinct = hash of the case",
+        "one evaluation = one history: resolve a handle (file, directory, fifo, symlink handle, character device) -> attacker operations on the handle's path (rename, replace by a same-named file/dir/symlink, unlink, rename an ancestor; 0-3 of them) -> renumber the handle's descriptor (0, 1, 2, 3, 5, 63, 150, 199 or unchanged) -> optionally mount tmpfs / a foreign directory over /proc, /proc/self, /proc/self/fd, /proc/thread-self -> reopen with a flag set from the power set of {access modes, O_APPEND, O_DIRECTORY, O_NOFOLLOW, O_CLOEXEC, O_TRUNC, O_NOATIME, O_CREAT, O_EXCL, O_TMPFILE, O_NOCTTY}; compared with the baseline (same handle type and flags, nothing in between); universes: K and E with private procfs, and with fsopen refused / the whole new mount API refused (non-private handles); private-table phase: the whole scenario runs in a caller thread with a private descriptor table (unshare(CLONE_FILES)) that opens the target itself, has the supervisor plant a decoy at the same descriptor number in the thread-group leader's table (or leave that number empty there), reopens through libpathrs (4 targets x flag sets x Rust/C, 60 cases per universe kind) and compares inodes itself: the answer must come from the calling thread's table; for the cases with a decoy every (system call of the reopen, errno of its catalogue) placement is enumerated as well (the call may fail, it never returns another inode); non-trivial = a history with at least one attacker / renumbering / mount step; distinct = hash of the case",
         res,
         Map::new(),
         vec![
